@@ -3,6 +3,7 @@ from __future__ import annotations
 
 import os
 import sys
+import types
 
 mon = sys.monitoring
 E = mon.events
@@ -115,14 +116,22 @@ class InjectedFault(BaseException):
 
 
 class Injector:
-    """Counts, and optionally raises at, the k-th event of a kind inside shapepy code.
+    """Counts, and raises at, the k-th event of a kind inside shapepy code.
 
     mode "call": CALL events whose *caller* code lies in shapepy (so the exception surfaces
     at a call instruction of a shapepy frame, exactly as an error raised by the callee).
     mode "line": LINE events in the named shapepy functions (asynchronous interrupt model).
-    No injection while a numpy callable is on the stack: numpy object loops keep calling
+    No injection while a numpy C callable is on the stack: numpy object loops keep calling
     back with the error indicator set and turn the injected exception into a SystemError
     that no real interpreter run can produce.
+
+    A dry run (`survey`) observes every event globally, tracks the numpy depth and records
+    for each admissible boundary its site (code object, offset/line) and the ordinal of that
+    event among *all* events at the same site.  An armed run (`arm(k)`) then only enables
+    the event on that one code object and fires at that ordinal, which keeps the cost of an
+    injected run close to the cost of the operation itself.  This relies on the operation
+    being deterministic for freshly rebuilt operands (checked: a run in which the site is
+    not reached is counted as not fired, never as held).
     """
 
     def __init__(self, mode="call", line_functions=None):
@@ -130,13 +139,15 @@ class Injector:
         self.prefix = shapepy_dir()
         self.line_functions = set(line_functions or ())
         self.count = 0
-        self.target = None
-        self.fired_at = None
-        self.sites = []
-        self.record_sites = False
+        self.sites = []          # per admissible boundary: (code, where, ordinal)
         self.np_depth = 0
         self._codes = {}
-        self.armed = False
+        self._occ = {}
+        self.surveying = False
+        self.target = None       # (code, where, ordinal)
+        self._seen = 0
+        self.fired_at = None
+        self._local_code = None
 
     def _in_lib(self, code):
         ok = self._codes.get(code)
@@ -149,6 +160,10 @@ class Injector:
 
     @staticmethod
     def _is_numpy(callable_):
+        # Python-level numpy functions produce no C_RETURN event; only C callables are
+        # tracked (the object loops that call back into Point2D are all C level)
+        if isinstance(callable_, (types.FunctionType, types.MethodType)):
+            return False
         mod = getattr(callable_, "__module__", None) or ""
         if mod.startswith("numpy"):
             return True
@@ -157,73 +172,109 @@ class Injector:
 
     def install(self):
         mon.use_tool_id(FAULT_TOOL, "vf-faults")
-        if self.mode == "call":
-            mon.register_callback(FAULT_TOOL, E.CALL, self._on_call)
-            mon.register_callback(FAULT_TOOL, E.C_RETURN, self._on_cret)
-            mon.register_callback(FAULT_TOOL, E.C_RAISE, self._on_cret)
-            mon.set_events(FAULT_TOOL, E.CALL | E.C_RETURN | E.C_RAISE)
-        else:
-            mon.register_callback(FAULT_TOOL, E.LINE, self._on_line)
-            mon.register_callback(FAULT_TOOL, E.CALL, self._on_call_np)
-            mon.register_callback(FAULT_TOOL, E.C_RETURN, self._on_cret)
-            mon.register_callback(FAULT_TOOL, E.C_RAISE, self._on_cret)
-            mon.set_events(FAULT_TOOL, E.LINE | E.CALL | E.C_RETURN | E.C_RAISE)
+        mon.register_callback(FAULT_TOOL, E.CALL, self._on_call)
+        mon.register_callback(FAULT_TOOL, E.C_RETURN, self._on_cret)
+        mon.register_callback(FAULT_TOOL, E.C_RAISE, self._on_cret)
+        mon.register_callback(FAULT_TOOL, E.LINE, self._on_line)
 
     def uninstall(self):
+        self.disarm()
         mon.set_events(FAULT_TOOL, 0)
         for ev in (E.CALL, E.C_RETURN, E.C_RAISE, E.LINE):
             mon.register_callback(FAULT_TOOL, ev, None)
         mon.free_tool_id(FAULT_TOOL)
 
-    def arm(self, target=None, record_sites=False):
+    # -- dry run ---------------------------------------------------------------------
+    def survey_start(self):
         self.count = 0
-        self.target = target
-        self.fired_at = None
         self.sites = []
-        self.record_sites = record_sites
+        self._occ = {}
         self.np_depth = 0
-        self.armed = True
+        self.surveying = True
+        self.target = None
+        events = E.CALL | E.C_RETURN | E.C_RAISE
+        if self.mode == "line":
+            events |= E.LINE
+        mon.set_events(FAULT_TOOL, events)
+
+    def survey_stop(self):
+        self.surveying = False
+        mon.set_events(FAULT_TOOL, 0)
+
+    # -- armed run -------------------------------------------------------------------
+    def arm(self, k):
+        """fire at the k-th admissible boundary (1-based) of the surveyed operation"""
+        code, where, ordinal = self.sites[k - 1]
+        self.target = (code, where, ordinal)
+        self._seen = 0
+        self.fired_at = None
+        self._local_code = code
+        mon.set_local_events(FAULT_TOOL, code, E.CALL if self.mode == "call" else E.LINE)
 
     def disarm(self):
-        self.armed = False
+        if self._local_code is not None:
+            try:
+                mon.set_local_events(FAULT_TOOL, self._local_code, 0)
+            except ValueError:
+                pass
+            self._local_code = None
         self.target = None
+
+    def site_name(self, k):
+        code, where, ordinal = self.sites[k - 1]
+        return (code.co_qualname, where)
 
     # -- callbacks -------------------------------------------------------------------
     def _on_call(self, code, offset, callable_, arg0):
-        if not self.armed:
+        if self.surveying:
+            if self._is_numpy(callable_):
+                self.np_depth += 1
+                if self.mode == "call" and self._in_lib(code):
+                    key = (code, offset)
+                    self._occ[key] = self._occ.get(key, 0) + 1
+                return
+            if self.mode != "call" or not self._in_lib(code):
+                return
+            key = (code, offset)
+            n = self._occ.get(key, 0) + 1
+            self._occ[key] = n
+            if self.np_depth:
+                return
+            self.count += 1
+            self.sites.append((code, offset, n))
             return
-        if self._is_numpy(callable_):
-            self.np_depth += 1
+        target = self.target
+        if target is None or self.mode != "call" or code is not target[0] or offset != target[1]:
             return
-        if self.np_depth:
-            return
-        if not self._in_lib(code):
-            return
-        self.count += 1
-        if self.record_sites:
-            self.sites.append((code.co_qualname, offset))
-        if self.target is not None and self.count == self.target:
+        self._seen += 1
+        if self._seen == target[2]:
             self.fired_at = (code.co_qualname, offset, getattr(callable_, "__qualname__", repr(callable_)))
             self.target = None
-            raise InjectedFault("call boundary %d at %s+%d" % (self.count, code.co_qualname, offset))
-
-    def _on_call_np(self, code, offset, callable_, arg0):
-        if self.armed and self._is_numpy(callable_):
-            self.np_depth += 1
+            raise InjectedFault("call boundary at %s+%d (occurrence %d)" % (code.co_qualname, offset, self._seen))
 
     def _on_cret(self, code, offset, callable_, arg0):
-        if self.armed and self.np_depth and self._is_numpy(callable_):
+        if self.surveying and self.np_depth and self._is_numpy(callable_):
             self.np_depth -= 1
 
     def _on_line(self, code, line):
-        if not self.armed or self.np_depth:
+        if self.mode != "line":
             return
-        if not self._in_lib(code):
+        if self.surveying:
+            if not self._in_lib(code):
+                return
+            key = (code, line)
+            n = self._occ.get(key, 0) + 1
+            self._occ[key] = n
+            if self.np_depth:
+                return
+            self.count += 1
+            self.sites.append((code, line, n))
             return
-        self.count += 1
-        if self.record_sites:
-            self.sites.append((code.co_qualname, line))
-        if self.target is not None and self.count == self.target:
+        target = self.target
+        if target is None or code is not target[0] or line != target[1]:
+            return
+        self._seen += 1
+        if self._seen == target[2]:
             self.fired_at = (code.co_qualname, line, "line")
             self.target = None
-            raise InjectedFault("statement %d at %s:%d" % (self.count, code.co_qualname, line))
+            raise InjectedFault("statement at %s:%d (occurrence %d)" % (code.co_qualname, line, self._seen))
